@@ -261,6 +261,57 @@ def run_one(ctx, site, make, files, schedule, replaying=False):
 
 MUTATORS = ('append', 'pop', 'insert', 'extend', 'remove', 'clear', 'update', 'setdefault', 'add', 'discard', 'popitem')
 _wl = {}
+_adj = {}
+
+
+def _is_write_stmt(n):
+    import ast
+    targets = []
+    if isinstance(n, ast.Assign):
+        targets = n.targets
+    elif isinstance(n, (ast.AugAssign, ast.AnnAssign)):
+        targets = [n.target]
+    elif isinstance(n, ast.Delete):
+        targets = n.targets
+    elif isinstance(n, (ast.Expr, ast.Return)) and isinstance(n.value, ast.Call) and isinstance(n.value.func, ast.Attribute):
+        return n.value.func.attr in MUTATORS
+    elif isinstance(n, (ast.For, ast.While, ast.If, ast.With, ast.Try)):
+        # a compound statement that starts with / consists of writes continues a multi-step update
+        body = getattr(n, 'body', [])
+        return bool(body) and _is_write_stmt(body[0])
+    return any(isinstance(x, (ast.Attribute, ast.Subscript)) for t in targets for x in ast.walk(t))
+
+
+def half_done_lines(files):
+    """(basename, line) of the writing statements that are directly followed, in the same block, by another writing
+    statement: suspending a thread right after such a line leaves a multi-field update half done."""
+    import ast
+    import os
+    import katdal
+    root = os.path.dirname(os.path.dirname(katdal.__file__))
+    out = set()
+    for rel in files:
+        if rel not in _adj:
+            mine = set()
+            tree = ast.parse(open(os.path.join(root, rel)).read())
+            for fn in ast.walk(tree):
+                if not isinstance(fn, (ast.FunctionDef, ast.AsyncFunctionDef)) or fn.name == '__init__':
+                    continue
+                for n in ast.walk(fn):
+                    for field in ('body', 'orelse', 'finalbody'):
+                        block = getattr(n, field, None)
+                        if not isinstance(block, list):
+                            continue
+                        for a, b in zip(block, block[1:]):
+                            if isinstance(a, ast.stmt) and _is_write_stmt(a) and not isinstance(a, (ast.For, ast.While, ast.If, ast.With, ast.Try)) \
+                                    and _is_write_stmt(b):
+                                mine.add((os.path.basename(rel), a.lineno))
+                        # a loop whose body writes: every iteration is a step of a multi-step update
+                        if isinstance(n, (ast.For, ast.While)) and field == 'body' and block and _is_write_stmt(block[-1]):
+                            mine.add((os.path.basename(rel), block[-1].lineno))
+            _adj[rel] = mine
+        out |= _adj[rel]
+    return out
 
 
 def write_lines(files):
@@ -309,7 +360,8 @@ def write_point_schedules(ctx, site, make, files, cap):
     completion (or until they block on A's lock), then resume A.  All of them when there are at most `cap`, else a
     seeded sample."""
     wl = write_lines(files)
-    scheds = []
+    hd = half_done_lines(files)
+    scheds, first = [], []
     for a in range(3):
         others = [t for t in range(3) if t != a]
         s = Sched(files, [['run', a], ['run', others[0]], ['run', others[1]]], max_trace=20000)
@@ -322,11 +374,15 @@ def write_point_schedules(ctx, site, make, files, cap):
                     o = list(others)
                     if ctx.rng.random() < 0.5:
                         o.reverse()
-                    scheds.append([a] * k + [['run', o[0]], ['run', o[1]]])
-    ctx.extra.setdefault('write_points', {})[site] = len(scheds)
+                    sch = [a] * k + [['run', o[0]], ['run', o[1]]]
+                    # suspended right after the first of two consecutive writes: a half-done update -- these go first
+                    (first if (k == i + 2 and w in hd) else scheds).append(sch)
+    ctx.extra.setdefault('write_points', {})[site] = [len(first), len(scheds)]
+    if len(first) > 2 * cap:
+        first = ctx.rng.sample(first, 2 * cap)
     if len(scheds) > cap:
         scheds = ctx.rng.sample(scheds, cap)
-    return scheds
+    return first + scheds
 
 
 def run_site(ctx, site, make, files, n=None, length=60, cap=None):
@@ -665,8 +721,8 @@ _ld = {}
 
 def load_lines_env(seed):
     if 'x' not in _ld:
-        x = v4.build_v4(T=6, F=8, seed=seed, need_weights_power_scale=True,
-                        chunks={'correlator_data': (2, 4, 6), 'flags': (3, 8, 4), 'weights': (1, 2, 12)})
+        x = guarded(lambda: v4.build_v4(T=6, F=8, seed=seed, need_weights_power_scale=True,
+                                        chunks={'correlator_data': (2, 4, 6), 'flags': (3, 8, 4), 'weights': (1, 2, 12)}), 150)
         _ld['x'] = x
         d = x.d
         d.select(dumps=slice(1, 6), channels=slice(1, 7))
@@ -710,7 +766,7 @@ def run_load_lines(ctx):
                      'indexing vis/flags/weights of a v4 data set from ONE thread does not return')
         return
     with dask.config.set(scheduler='synchronous'):
-        run_site(ctx, 'load_lines', site_load_lines(ctx.seed), LOAD_FILES, n=ctx.scale(10, 120), length=1500, cap=ctx.scale(40, 600))
+        run_site(ctx, 'load_lines', site_load_lines(ctx.seed), LOAD_FILES, n=ctx.scale(10, 120), length=1500, cap=ctx.scale(30, 600))
 
 
 def load_lines_cleanup():
@@ -734,6 +790,8 @@ FIXTURES = {
                        ['sdp_l0', 'flags', [0, 1, 0]]],
                  select=dict(dumps=[0, 5], channels=[1, 6])),
 }
+FIXTURES['cal'] = dict(T=5, F=6, cal=True, chunks={'correlator_data': (2, 4, 12), 'flags': (3, 3, 12), 'weights': (5, 2, 12)},
+                       select=dict(dumps=[0, 5], channels=[0, 6]))
 INDICES = {'all': np.s_[:], 'fancy': np.s_[::2, [0, 3, 4], 1:], 'dump': np.s_[2]}
 
 
@@ -767,9 +825,33 @@ class ReadLog:
 
 
 def build_fixture(name, seed):
+    """(under a hang guard: opening a data set with applycal instantiates virtual sensors, which a broken sensor-cache
+    lock turns into a self-deadlock of the calling thread)"""
+    return guarded(lambda: _build_fixture(name, seed), 150)
+
+
+def _build_fixture(name, seed):
     p = dict(FIXTURES[name])
     sel = p.pop('select')
     lose = [(a, b, tuple(c)) for a, b, c in p.pop('lose', [])]
+    if p.pop('cal', False):
+        # a calibration stream with G (per dump), B (per channel) and K products: applycal transforms in the graph
+        from fixtures import c13cal
+        import math
+        r = random.Random(seed)
+        F, ants = p['F'], ['m000', 'm001']
+
+        def cval():
+            m, ph = r.uniform(0.5, 2.0), r.uniform(-math.pi, math.pi)
+            return [m * math.cos(ph), m * math.sin(ph)]
+        products = {'G': [[dd, [[cval() for _ in ants] for _ in range(2)]] for dd in (-1, 2)],
+                    'B': [[-1, [[[cval() for _ in ants] for _ in range(2)] for _ in range(F)]]],
+                    'K': [[0, [[r.uniform(-2e-9, 2e-9) for _ in ants] for _ in range(2)]]]}
+        chan_w = 1048576.0
+        cal = dict(antlist=ants, pol_ordering=['v', 'h'], center_freq=1284e6, bandwidth=F * chan_w, n_chans=F,
+                   products=products)
+        p.update(bandwidth=F * chan_w, center_freq=1284e6, telstate_hook=c13cal.cal_hook(cal),
+                 archived_override=['sdp_l0', 'cal'], open_kwargs=dict(applycal=['l1.G', 'l1.B', 'l1.K']))
     x = v4.build_v4(seed=seed, lose=lose, **p)
     x.d.select(dumps=slice(*sel['dumps']), channels=slice(*sel['channels']))
     return x
@@ -814,7 +896,7 @@ def load_case(ctx, x, fixture, iname, joint, desc, ref, ref_reads, rl, seed):
         return
     reads = rl.take()
     for nm, a, b in zip(names, ref, got):
-        if a.shape != b.shape or a.dtype != b.dtype or not np.array_equal(a, b):
+        if a.shape != b.shape or a.dtype != b.dtype or not np.array_equal(a, b, equal_nan=(a.dtype.kind in 'fc')):
             where = np.argwhere(np.asarray(a != b))[:1].tolist() if a.shape == b.shape else 'shape'
             ctx.disagree('what=threaded_load;sched=%s;array=%s' % (desc['type'], nm), dict(case, first_diff=where),
                          'differs', None, 'multi-threaded dask load differs from the single-threaded load',
@@ -931,7 +1013,14 @@ def threaded_vs_sync(ctx):
     rng = ctx.rng
     for fixture in FIXTURES:
         seed = rng.randrange(2 ** 20)
-        x = build_fixture(fixture, seed)
+        try:
+            x = build_fixture(fixture, seed)
+        except Hang as e:
+            ctx.disagree('what=single_thread_load;symptom=open_hangs',
+                         dict(kind='load', fixture=fixture, seed=seed, index='all', joint=False,
+                              sched=dict(type='threads', workers=1)), str(e), None,
+                         'opening and selecting a v4 data set from ONE thread does not return')
+            continue
         rl = ReadLog(x.store)
         try:
             combos = [('all', False), ('all', True), ('fancy', True)] if ctx.tier != 'thorough' else \
@@ -1014,18 +1103,7 @@ def run(ctx):
         _s3.pop('s').close()
 
 
-def replay_case(ctx, case):
-    kind = case.get('kind', 'site')
-    if kind == 'pool_history':
-        pool_history_case(ctx, case['ops'])
-        return
-    if kind == 'model':
-        out = ctx.model([[20, [case['body'], case['threads'], case['schedule'], 1]]])[0]
-        states, ncomp = out
-        if any(s[0] == 3 or (s[0] == 2 and s[1] != LOCKED_SAFE) for s in states) or ncomp > 1:
-            ctx.disagree('what=model_locked_unsafe;site=%s' % case.get('site'), case, None, out, 'replayed model schedule is unsafe')
-        ctx.note_case(('model', 'replay'))
-        return
+def replay_load(ctx, case, kind):
     if kind == 'store_writes':
         x = build_fixture(case['fixture'], case.get('seed', 0))
         try:
@@ -1051,6 +1129,27 @@ def replay_case(ctx, case):
         finally:
             rl.remove()
             v4.cleanup(x)
+        return
+
+
+def replay_case(ctx, case):
+    kind = case.get('kind', 'site')
+    if kind == 'pool_history':
+        pool_history_case(ctx, case['ops'])
+        return
+    if kind == 'model':
+        out = ctx.model([[20, [case['body'], case['threads'], case['schedule'], 1]]])[0]
+        states, ncomp = out
+        if any(s[0] == 3 or (s[0] == 2 and s[1] != LOCKED_SAFE) for s in states) or ncomp > 1:
+            ctx.disagree('what=model_locked_unsafe;site=%s' % case.get('site'), case, None, out, 'replayed model schedule is unsafe')
+        ctx.note_case(('model', 'replay'))
+        return
+    if kind in ('store_writes', 'load'):
+        try:
+            replay_load(ctx, case, kind)
+        except Hang as e:
+            ctx.disagree('what=single_thread_load;symptom=open_hangs', case, str(e), None,
+                         'opening and selecting a v4 data set from ONE thread does not return')
         return
     site = case.get('site', 'dask')
     make, files = site_table(ctx)[site]
